@@ -126,5 +126,24 @@ Theorem C01_plumbing_murphy : plumb_murphy_score = plumb_mean_unweighted "fcst.d
 Proof. exact murphy_plumbing. Qed.
 Print Assumptions C01_plumbing_murphy.
 
+Theorem C01_plumbing_other_functions :
+  plumb_crps_cdf_brier_decomposition =
+    {| pl_gather_args := ["fcst.dims"; "obs.dims"]; pl_weights_dims := false; pl_specific := false; pl_apply_weights := 0;
+       pl_weights_before_reduce := true; pl_reductions := ["mean"; "mean"] |} /\
+  plumb_risk_matrix_score =
+    {| pl_gather_args := ["fcst_dims0"; "obs_dims0"]; pl_weights_dims := true; pl_specific := false; pl_apply_weights := 1;
+       pl_weights_before_reduce := true; pl_reductions := ["mean"] |} /\
+  plumb_contingency_counts =
+    {| pl_gather_args := ["self.fcst_events.dims"; "self.obs_events.dims"]; pl_weights_dims := false; pl_specific := false;
+       pl_apply_weights := 0; pl_weights_before_reduce := true; pl_reductions := ["sum"; "sum"; "sum"; "sum"] |} /\
+  plumb_pearsonr =
+    {| pl_gather_args := ["fcst.dims"; "obs.dims"]; pl_weights_dims := false; pl_specific := false; pl_apply_weights := 0;
+       pl_weights_before_reduce := true; pl_reductions := ["corr"] |} /\
+  plumb_kge =
+    {| pl_gather_args := ["fcst.dims"; "obs.dims"]; pl_weights_dims := false; pl_specific := false; pl_apply_weights := 0;
+       pl_weights_before_reduce := true; pl_reductions := ["corr"; "std"; "std"; "mean"; "mean"] |}.
+Proof. exact more_plumbing. Qed.
+Print Assumptions C01_plumbing_other_functions.
+
 Example C01_nonvacuous : dsubset ["a"] (all_data ["a"; "b"] ["b"] None) = true /\ "a" <> "all" /\ "a" <> "".
 Proof. repeat split; try reflexivity; discriminate. Qed.
